@@ -130,6 +130,15 @@ func checkC10(c *Ctx) {
 		Weights: []int{0, 2, 4, 8}, Factors: [][2]int{{1, 2}, {2, 1}}, Ops: []string{"Add", "AddW", "Merge", "Copy", "Clear", "Reweight", "EncDec", "DecodeNew"},
 		Q: 4, QDen: 8, Depth: c.pick(10, 20), Simulate: true, Num: c.pick(600, 15000)}
 	c.runSketchGen(simc, mx, c.pick(6, 12), "simulated histories, exact variant on collapsing stores")
+	// unit / mapping changes: statistics rescaled at the conversion, and afterwards both sketches evolve independently
+	cmInit := []SketchInit{{"exact", 1, ex0, ex0}, {"exact", 1, ex0, ex0}, {"exact", 2, ex0, ex0}}
+	mxc := &SketchMatrix{Mappings: [][]MappingSpec{{{"log", 0.01}, {"cubic", 0.02}}, {{"linear", 0.05}, {"log", 0.01}}, {{"cubic", 0.01}, {"cubic", 0.03}}}, Reals: exactRealKinds,
+		Modes: []string{"every"}, Aspects: map[string]bool{"bins": true, "exact": true, "cm-stats": true, "pure": true}, MidKeysOnly: true}
+	cmTree := &SketchGen{Init: cmInit[:2], Tokens: []int{11, -12}, Weights: []int{6}, Ops: []string{"AddW", "ChangeMap", "Clear"}, Q: 4, QDen: 8, Depth: c.pick(3, 4)}
+	c.runSketchGen(cmTree, mxc, c.pick(4, 8), "exhaustive tree with unit/mapping changes")
+	cmSim := &SketchGen{Init: cmInit, Tokens: append(append([]int{}, tokBins3...), 0, 2), Weights: []int{0, 2, 4, 8}, Factors: [][2]int{{1, 2}, {2, 1}},
+		Ops: []string{"Add", "AddW", "Merge", "Copy", "Clear", "Reweight", "ChangeMap", "EncDec"}, Q: 4, QDen: 8, Depth: c.pick(10, 20), Simulate: true, Num: c.pick(800, 20000)}
+	c.runSketchGen(cmSim, mxc, c.pick(6, 12), "simulated histories with unit/mapping changes")
 }
 
 var allSketchOps = []string{"Add", "AddW", "AddN", "Merge", "Copy", "Clear", "Reweight", "EncDec", "DecodeNew", "Proto", "Read"}
